@@ -38,6 +38,11 @@ def arrive (st : RawSt) (seg : Bytes) : RawSt := moveAll { st with pending := st
 /-- gw_handle_subrequest(): chunked body just completed -/
 def complete (st : RawSt) : RawSt :=
   if st.reqlen < -1 then moveAll { st with reqlen := -st.reqlen } else st
+
+/-- whole request: header block, first body segment present at create_env, the others arriving
+    later, everything flushed -/
+def run (hdr : Bytes) (bodyLen : Int) (seg0 : Bytes) (segs : List Bytes) : RawSt :=
+  (segs.foldl arrive (startBody hdr bodyLen seg0)).moveAll
 end RawSt
 
 namespace Scgi
